@@ -225,3 +225,82 @@ def replay_point_multipoint(k, model, npoints):
     got = forms(qs, arr)
     want = [q in vs for q in qs]
     return got, want, True, {'multipoint': vs, 'points': qs, 'kind': 'multipoint'}
+
+
+# ------------------------------------------------------------------------------------------------ float32 points and shapes
+B24 = 1 << 24
+
+
+def q_f32(kind, struct, timeout=300, seed=0, bnd=1 << 14, solve=True):
+    """point kernels with float32 points AND a float32 shape buffer (values.F32 mode: float32 (op) float32 is float32, so
+    differences and the cross products are rounded to 24 bits).  kind 'line': _perform_intersects_line on one line of
+    struct vertices; kind 'polygon': point_intersects_polygon on one closed ring of struct distinct vertices, point not on
+    the boundary.  Integer coordinates |c| <= bnd (2^14: products of differences then exceed 2^24); exact multiplication; rounded values
+    named by fresh variables."""
+    from .framework import formula_size, model_ints, z3_check
+    values.set_mul_mode('exact')
+    exp = 2 * (bnd.bit_length() + 1) + 1          # |differences| <= 2 bnd, |products| <= 4 bnd^2, |difference of products| <= 8 bnd^2
+    values.F32.update(on=True, rounded=0, defs=[], sum_exp=exp, prod_exp=exp)
+    t0 = time.time()
+
+    def mark(vs):
+        flat = np.empty(2 * len(vs), dtype=object)
+        for i, v in enumerate(vs):
+            flat[2 * i], flat[2 * i + 1] = Num(v[0], False, 0, True), Num(v[1], False, 0, True)
+        return flat
+    try:
+        it = Interp()
+        q = (z3.Int('q0x'), z3.Int('q0y'))
+        cons = []
+        if kind == 'line':
+            vs = [(z3.Int(f'p0x{i}'), z3.Int(f'p0y{i}')) for i in range(struct)]
+            res = it.call(it.func(PT, '_perform_intersects_line'), [mark([q]), mark(vs), np.array([0, 2 * struct], dtype=np.uint32), np.arange(1)])
+            impl = tz(res[0])
+            spec = z3.Or(*[G.on_seg(q, vs[i], vs[i + 1]) for i in range(struct - 1)])
+        else:
+            vs = [(z3.Int(f'g0r0x{i}'), z3.Int(f'g0r0y{i}')) for i in range(struct)]
+            ring = vs + [vs[0]]
+            r = it.call(it.func(ALG, 'point_intersects_polygon'), [Num(q[0], False, 0, True), Num(q[1], False, 0, True), mark(ring), np.array([0, 2 * len(ring)], dtype=np.uint32)])
+            impl = tz(r)
+            spec = G.wn_up([ring], q) != 0
+            cons += [z3.Not(G.on_seg(q, ring[i], ring[i + 1])) for i in range(len(ring) - 1)]       # off the boundary
+    finally:
+        defs = values.F32['defs']
+        values.F32.update(on=False, defs=None, sum_exp=25, prod_exp=50)
+    rounded = values.F32['rounded']
+    extra = {'f32_typed_operations': rounded, 'bound': bnd}
+    if rounded == 0 and not solve:
+        return {'status': 'unsat', 'reduced': True, 'solver_s': 0.0, 'queries': 0, 'formula_size': 1, 'encoded': it.encoded, 'symex_s': round(time.time() - t0, 2),
+                'detail': 'no float32-typed arithmetic in the symbolic run: the encoding is the float64 one, decided by the float64 obligation of this structure', **extra}
+    allv = [t for v in vs for t in v] + list(q)
+    s = z3.Solver()
+    s.add(*rng(allv, bnd))
+    s.add(*cons)
+    s.add(*defs)
+    s.add(impl != spec)
+    st, m, dt = z3_check(s, timeout, seed)
+    out = {'status': st, 'solver_s': round(dt, 3), 'formula_size': formula_size(s), 'encoded': it.encoded, 'queries': 1, 'symex_s': round(time.time() - t0 - dt, 2), **extra}
+    if m is not None:
+        out['model'] = model_ints(m, allv)
+    return out
+
+
+def replay_f32(kind, struct, model):
+    """real PointArray(float32).intersects(float32 shape), all forms, against the exact oracle"""
+    import spatialpandas.geometry as sg
+    q = (int(model.get('q0x', 0)), int(model.get('q0y', 0)))
+    pa_ = sg.PointArray([[q[0], q[1]]], dtype='float32')
+    if kind == 'line':
+        vs = [(int(model.get(f'p0x{i}', 0)), int(model.get(f'p0y{i}', 0))) for i in range(struct)]
+        shape = sg.LineArray([[c for v in vs for c in v]], dtype='float32')[0]
+        want = any(G.on_seg_x(q, vs[i], vs[i + 1]) for i in range(struct - 1))
+        in_domain = True
+    else:
+        vs = [(int(model.get(f'g0r0x{i}', 0)), int(model.get(f'g0r0y{i}', 0))) for i in range(struct)]
+        ring = vs + [vs[0]]
+        shape = sg.PolygonArray([[[c for v in ring for c in v]]], dtype='float32')[0]
+        want = G.winding_x([ring], q) != 0
+        in_domain = not G.on_boundary_x([ring], q)
+    got = {'array': bool(pa_.intersects(shape)[0]), 'inds': bool(pa_.intersects(shape, inds=np.array([0]))[0]), 'scalar': bool(pa_[0].intersects(shape))}
+    wit = {'kind': kind, 'dtype': 'float32', 'point': q, 'shape': vs, 'got': got, 'expected': want}
+    return in_domain and any(v != want for v in got.values()), wit
